@@ -260,6 +260,38 @@ def run(ctx):
                         ctx.violation('logits-depend-on-batch', 'logits inside the window differ from those of the line alone', inp, pos)
             if nlines >= 3:
                 ctx.nontriv(inp)
+        # ---- engines with writer / style embeddings (`embed_id` in the OCR json, re-assigned on the live engine by select_embed_id.py):
+        # after the id was switched every line is recognised with the NEW id, whatever was recognised before and however the lines
+        # fall into batches
+        for it in range(4 if ctx.quick() else 30):
+            bs = rng.choice([2, 3, 8])
+            ida, idb = rng.sample([0, 1, 2, 3], 2)
+            da, db = os.path.join(tmp, 'emb_a%d' % it), os.path.join(tmp, 'emb_b%d' % it)
+            os.makedirs(da); os.makedirs(db)
+            try:
+                ea = stubs.make_engine(da, batch_size=bs, embed_id=ida)[0]
+                eb = stubs.make_engine(db, batch_size=bs, embed_id=idb)[0]
+            except Exception as e:
+                ctx.count('embed_engine_unavailable')
+                break
+            first = [stubs.random_line(rng, rng.randrange(20, 400)) for _ in range(rng.randrange(3, 8))]
+            second = [stubs.random_line(rng, rng.randrange(20, 400)) for _ in range(rng.randrange(1, 7))]
+            inp = dict(stage='embed_id switched on a live engine', batch_size=bs, first_id=ida, then_id=idb, widths_first=[int(x.shape[1]) for x in first],
+                       widths_then=[int(x.shape[1]) for x in second])
+            ctx.evaluations += 1
+            try:
+                ea.process_lines(first, sparse_logits=False)
+                ea.embed_id = idb
+                t1, l1, c1 = ea.process_lines(second, sparse_logits=False)
+                t0, l0, c0 = eb.process_lines(second, sparse_logits=False)
+            except Exception as e:
+                ctx.violation('embed-raises:' + type(e).__name__, 'process_lines raised %r on an engine with embeddings' % (e,), inp)
+                continue
+            if list(t1) != list(t0) or any(np.asarray(a).shape != np.asarray(b).shape or np.abs(np.asarray(a) - np.asarray(b)).max(initial=0) > 1e-4 for a, b in zip(l1, l0)):
+                ctx.violation('embed-id-history', "after the engine's embed_id was re-assigned, lines are not recognised as by an engine built with that id "
+                              '(the result depends on what was recognised before / on the batch a line falls into)', inp, list(t1)[:3], list(t0)[:3])
+            ctx.count('embed_id_cases')
+            ctx.nontriv(inp)
         # ---- the glue above the engine: PageOCR.process_page puts result i onto line i of the page (lines spread over regions,
         # empty regions, zero-width crops next to ordinary ones)
         from pero_ocr.document_ocr.page_parser import PageOCR
